@@ -269,3 +269,25 @@ WEXPORT int64_t w_m4_eq(const int32_t* a, const int32_t* b, int ne) {
   try { return ne ? (mat_in(a) != mat_in(b)) : (mat_in(a) == mat_in(b)); }
   W_CATCH_ALL
 }
+
+// ---- Matrix4<double>: M * inverse(M) (C20 inversion clause). Entries as IEEE bit patterns, layout v[4*c + r].
+static Matrix4<double> matd_in(const uint64_t* p) {
+  Matrix4<double> m;
+  for (size_t z = 0; z < 16; z++) memcpy(&m.v[z], &p[z], 8);
+  return m;
+}
+static void matd_out(const Matrix4<double>& m, uint64_t* p) {
+  for (size_t z = 0; z < 16; z++) memcpy(&p[z], &m.v[z], 8);
+}
+// out_inv = inverse(M) (or invert() in place), out_prod = M * inverse(M); runtime_error (-5) when phosg says "not invertible"
+WEXPORT int64_t w_m4d_inverse(const uint64_t* m, int inplace, uint64_t* out_inv, uint64_t* out_prod) {
+  try {
+    Matrix4<double> M = matd_in(m);
+    Matrix4<double> I = M;
+    if (inplace) I.invert(); else I = M.inverse();
+    matd_out(I, out_inv);
+    matd_out(M * I, out_prod);
+    return 0;
+  }
+  W_CATCH_ALL
+}
